@@ -527,11 +527,30 @@ PROBES = {
     "N93": [
         {"src": "Decl q(X) bound [/any].\nDecl p(X) descr [mode(\"+\")] bound [/number].\np(X) :- q(X).\n", "pre": 'q("foo").'},
     ],
+    "F7b": [
+        {"src": "Decl e(X) bound [fn:Map(/any,/number)].\nDecl h(X) bound [fn:Map(/string,/number)].\nh(X) :- e(X).\n",
+         "pre": "e([1: 1])."},
+    ],
+    "F7c": [
+        {"src": "Decl e(X) bound [fn:Struct(/f,/any)].\nDecl h(X) bound [fn:Struct(/f,/any,fn:opt(/g,/number))].\nh(X) :- e(X).\n",
+         "pre": "e({/f: 1})."},
+    ],
+    "F7f": [
+        {"src": "Decl e(X) bound [fn:Struct(/kind,/name,/x,/number)].\n"
+                "Decl h(X) bound [fn:TaggedUnion(/kind,/a,fn:Struct(/x,/number))].\nh(X) :- e(X).\n",
+         "pre": "e({/kind: /zzz, /x: 1})."},
+    ],
 }
 PROBE_WHAT = {
     "N92": "symbols.LowerBound / intersectType under-approximates an intersection (no structural case: fn:List(/number) and "
            "fn:List(/string) share [], pairs and the fn:Rel tuples of a body atom are only compared as a whole); the bounds "
            "checker drops the inference state, accepts the program, and evaluation stores a fact outside the declared bounds",
+    "F7b": "map keys are contravariant in conformance and covariant in membership: h(X) :- e(X) is accepted for "
+           "e : fn:Map(/any,/number), h : fn:Map(/string,/number) and stores h([1: 1])",
+    "F7c": "struct width: h(X) :- e(X) is accepted for e : fn:Struct(/f,/any), h : fn:Struct(/f,/any,fn:opt(/g,/number)) "
+           "and stores h({/f: 1}), which HasType refuses (it wants every declared field)",
+    "F7f": "a tagged union on the right is expanded with /name for the tag: h(X) :- e(X) is accepted for "
+           "e : fn:Struct(/kind,/name,/x,/number), h : fn:TaggedUnion(/kind,/a,fn:Struct(/x,/number)) and stores h({/kind: /zzz, /x: 1})",
     "N93": "a head variable in a mode(\"+\") position is assumed to have the declared type; bottom-up evaluation stores p(\"foo\") "
            "for Decl p(X) descr [mode(\"+\")] bound [/number]",
 }
